@@ -629,6 +629,12 @@ func init() {
 	pongo2.VerifSim = func(point string, l pongo2.VerifLocker) {
 		tc := CurrentTask()
 		if tc == nil {
+			// no other task exists: if the lock is taken now, the caller itself holds it
+			// and the Lock() that follows would block forever
+			if !l.TryLock() {
+				panic(SelfDeadlock{Point: point})
+			}
+			l.Unlock()
 			return
 		}
 		tc.Park(KLock, 0, 0, point)
@@ -637,6 +643,26 @@ func init() {
 		}
 		l.Unlock()
 	}
+}
+
+// SelfDeadlock is the panic value raised (instead of hanging) when the engine, with
+// no other task around, tries to acquire a lock it already holds.
+type SelfDeadlock struct{ Point string }
+
+// SafeRun runs one simulated run and turns a SelfDeadlock into a violation.
+func SafeRun(c Checker, tp *Tapes, opt RunOpt) (o *Outcome) {
+	defer func() {
+		if r := recover(); r != nil {
+			sd, ok := r.(SelfDeadlock)
+			if !ok {
+				panic(r)
+			}
+			SetCurWorld(nil)
+			o = &Outcome{NonTrivial: true}
+			o.addViolation("deadlock", sd.Point, "the engine tried to acquire a lock it already holds (it would block forever): "+sd.Point, nil, nil)
+		}
+	}()
+	return c.Run(tp, opt)
 }
 
 // ---------------------------------------------------------------------------------
